@@ -332,7 +332,7 @@ func runC06(c *report.Ctx) {
 	// ---- resumed removal re-runs step 1 -------------------------------------------------------------------------
 	ruleRemovalStepIdempotent(c)
 	ruleLayout(c, []string{"wallet-status-value", "synced-block-value", "synced-to-value"}, 5)
-	ruleNoMemoryTipUnderUpdate(c)
+	ruleNoMemoryTipUnderUpdate(c, false)
 	ruleFastForwardGate(c)
 	ruleReadySet(c, false, true)
 }
